@@ -166,7 +166,7 @@ BgLines == <<
   Not(Ln("exec", <<Lit("hfail"), Lit("&")>>)), Not(Ln("exec", <<Lit("hecho"), Lit("hi"), Lit("&")>>)),
   Ln("exec", <<Lit("hblock"), Lit("&")>>), Not(Ln("exec", <<Lit("hblock"), Lit("&")>>)),
   Ln("exec", <<Lit("hblock"), Lit("&n1&")>>), Ln("exec", <<Lit("hecho"), Lit("hello"), Lit("&n1&")>>),
-  Not(Ln("exec", <<Lit("hfail"), Lit("&n2&")>>)),
+  Not(Ln("exec", <<Lit("hfail"), Lit("&n2&")>>)), Not(Ln("exec", <<Lit("hecho"), Lit("hi"), Lit("&n2&")>>)),   \* the second one: wait n2 must fail
   Ln("exec", <<Lit("nosuchprog"), Lit("&")>>), Not(Ln("exec", <<Lit("nosuchprog"), Lit("&")>>)),
   Ln("exec", <<Lit("&n1&")>>),
   Ln("wait", <<>>), Ln("wait", <<Lit("n1")>>), Ln("wait", <<Lit("n2")>>), Ln("wait", <<Lit("nx")>>), Ln("wait", <<A, B>>), Not(Ln("wait", <<>>)),
